@@ -212,14 +212,22 @@ class Checker:
         """
         finfo = self.fileinfo
 
-        if "length" in self.info:
+        length = self.info.get("length")
+        if (length is None and self.meta_version > 1
+                and os.path.isfile(self.root)):
+            # BEP 52: a single file v2 metafile has no length key in info
+            leaf = self.info["file tree"].get(self.name, {}).get("")
+            if leaf:
+                length = leaf["length"]
+
+        if length is not None:
             self.log_msg("%s points to a single file", self.root)
-            self.total = self.info["length"]
+            self.total = length
             self.paths.append(str(self.root))
 
             finfo[0] = {
                 "path": self.root,
-                "length": self.info["length"],
+                "length": length,
             }
 
             if self.meta_version > 1:
